@@ -26,4 +26,24 @@ theorem gen_force_fragment :
 theorem gen_resolvePath_literals :
     Gen.IRIFacts.resolvePathElemLiterals = [".", ".."] := rfl
 
+/-- the exported API of iri/parsed_iri.go and iri/base_iri.go is exactly the list the T3 histories drive
+    (go/cmd/c12/hist.go, wrap.go; `RelativizeIRI` by go/cmd/c13). Hand-written expectation: a NEW exported function
+    or method makes this fact fail until it is modelled (Model/ParsedIRI.lean `HOp`) and driven.
+      func.ParseIRI            piri.parse / every op            ParsedIRI.String        every op (state field 1)
+      ParsedIRI.Parse          piri.resolve/chain, hist P C     ParsedIRI.DropFragment  hist D Q C
+      ParsedIRI.ResolveReference  hist Q V                       ParsedIRI.IsAbs         hist (state field 15), piri.base
+      ParsedIRI.URL            every op (state fields 4..14), hist U
+      func.NewBaseIRI / func.ParseBaseIRI  piri.base, hist B     BaseIRI.Parse / ResolveReference / String / IsAbs  hist B
+      BaseIRI.RelativizeIRI    property C13 (Model/Prefix.lean, go/cmd/c13) -/
+theorem gen_parsedIRI_api :
+    Gen.IRIFacts.parsedIRIApi =
+      ["BaseIRI.IsAbs", "BaseIRI.Parse", "BaseIRI.RelativizeIRI", "BaseIRI.ResolveReference", "BaseIRI.String",
+       "ParsedIRI.DropFragment", "ParsedIRI.IsAbs", "ParsedIRI.Parse", "ParsedIRI.ResolveReference", "ParsedIRI.String",
+       "ParsedIRI.URL", "func.NewBaseIRI", "func.ParseBaseIRI", "func.ParseIRI"] := rfl
+
+/-- `DropFragment` is the three unconditional assignments `Model.PIRI.ParsedIRI.dropFragment` performs -/
+theorem gen_dropFragment_body :
+    Gen.IRIFacts.dropFragmentBody =
+      ["u.forceFragment=false", "u.u.Fragment=\"\"", "u.u.RawFragment=\"\""] := rfl
+
 end RdfModel.C12
